@@ -19,7 +19,124 @@ class Q:
         return v, model, detail
 
 
+def struct_fields(path, struct):
+    src = open(mirrun.REPO + path).read()
+    m = re.search(r"pub struct %s(?:<[^{]*>)? \{(.*?)\n\}" % struct, src, re.S)
+    return re.findall(r"^\s*(?:pub(?:\([\w:]+\))? )?(\w+):", re.sub(r"//.*", "", m.group(1)), re.M)
+
+
+def satsub32(a, b):
+    d = "(bvsub %s %s)" % (a, b)
+    ovf = "(and (not (= ((_ extract 31 31) %s) ((_ extract 31 31) %s))) (not (= ((_ extract 31 31) %s) ((_ extract 31 31) %s))))" % (a, b, d, a)
+    sat = "(ite (bvslt %s %s) %s %s)" % (a, engine.bv(0, 32), engine.bv(1 << 31, 32), engine.bv((1 << 31) - 1, 32))
+    return "(ite %s %s %s)" % (ovf, sat, d)
+
+
+def debit(ob, tier):
+    """ConnectionH2::write_streams: what a stream sent in this pass is debited from the stream
+    window AND from the connection window inside the per-stream loop, by the same amount, so
+    the next stream of the same pass is budgeted against the up-to-date connection window"""
+    fn = mirrun.get_fn("lib", "::write_streams")
+    ex = engine.Executor(fn, loop_bound=lambda f, h: 1, max_nodes=200000)
+    ev = ex.run()
+    for i, e in enumerate(ev):
+        e.seq = i
+    q = Q(ex.ctx)
+    res = {"paths": ex.stats["nodes"], "functions": [fn.name]}
+    conn = "(*_1).%d.%d" % (struct_fields("/lib/src/protocol/mux/h2.rs", "ConnectionH2").index("flow_control"),
+                            struct_fields("/lib/src/protocol/mux/h2.rs", "H2FlowControl").index("window"))
+    prep = [e for e in ev if e.kind == "call" and re.search(r"Kawa::<.*>::prepare::<.*H2BlockConverter", e.callee) and e.node[1] and all(i == 0 for _, i in e.node[1])]
+    if len(prep) != 1:
+        return dict(res, verdict="inconclusive", why="shape: converter runs in the first loop pass=%d" % len(prep))
+    ctx0 = prep[0].node[1]
+    subs = [e for e in ev if e.kind == "call" and e.node[1] == ctx0 and e.callee.endswith("<impl i32>::saturating_sub") and e.seq > prep[0].seq]
+    w32 = [e for e in ev if e.kind == "write" and e.node[1] == ctx0 and getattr(e, "sort", None) == 32 and e.seq > prep[0].seq and e.value]
+    problems = []
+    stream_w = [w for w in w32 if w.place != conn]
+    conn_w = [w for w in w32 if w.place == conn]
+    if not subs or not stream_w:
+        return dict(res, verdict="inconclusive", why="shape: i32 debits after the converter run=%d stream window stores=%d" % (len(subs), len(stream_w)))
+    c = subs[0].args[1]["val"].term   # `consumed`
+    sw = stream_w[0]
+    if q([sw.guard, engine.NOT("(= %s %s)" % (sw.value, satsub32(subs[0].args[0]["val"].term, c)))])[0] != "unsat":
+        problems.append("the stream send window is not debited by what the converter consumed")
+    if not conn_w:
+        problems.append("the connection send window is not debited inside the per-stream loop: the next stream of the same pass is budgeted against the stale connection window (N streams can send N times the peer's window)")
+    for w in conn_w:
+        olds = [x.args[0]["val"].term for x in subs[1:]] + ([w.prev] if w.prev else [])
+        if not any(q([w.guard, engine.NOT("(= %s %s)" % (w.value, satsub32(o, c)))])[0] == "unsat" for o in olds):
+            problems.append("the connection send window is not debited by the same amount as the stream window")
+    if conn_w and (q([sw.guard, engine.NOT(engine.OR(*[w.guard for w in conn_w]))])[0] != "unsat"):
+        problems.append("a pass can debit the stream window without debiting the connection window")
+    wit = [q([sw.guard])[0]]
+    res["witness"] = "debit site reachable: %s; %d connection-window stores in the loop" % (wit, len(conn_w))
+    res["witness_ok"] = all(x == "sat" for x in wit)
+    res["queries"], res["solver_s"] = q.n, round(q.secs, 2)
+    if problems:
+        return dict(res, verdict="counterexample", text="; ".join(problems), model={"problems": problems}, replay={"reproduced": False, "why": "no native replay"})
+    return dict(res, verdict="holds")
+
+
+def credits(ob, tier):
+    """flush_pending_control_frames: a queued WINDOW_UPDATE credit leaves the map only once its
+    frame was serialised (or it was a zero increment): the map is only mutated through
+    HashMap::remove, fed from the list of written ids; a bulk drain / clear would lose the
+    entries behind an early exit (buffer full) and those receive windows are never re-opened"""
+    fn = mirrun.get_fn("lib", "::flush_pending_control_frames")
+    ex = engine.Executor(fn, loop_bound=lambda f, h: 1, max_nodes=200000)
+    ev = ex.run()
+    for i, e in enumerate(ev):
+        e.seq = i
+    q = Q(ex.ctx)
+    res = {"paths": ex.stats["nodes"], "functions": [fn.name]}
+    place = "(*_1).%d.%d" % (struct_fields("/lib/src/protocol/mux/h2.rs", "ConnectionH2").index("flow_control"),
+                             struct_fields("/lib/src/protocol/mux/h2.rs", "H2FlowControl").index("pending_window_updates"))
+    mut = [e for e in ev if e.kind == "call" and any(a["val"].ref == place and a["val"].mut for a in e.args)]
+    gen = [e for e in ev if e.kind == "call" and re.search(r"(^|::)gen_window_update$", e.callee)]
+    gone = [e for e in ev if e.kind == "call" and e.callee.endswith("::frontend_hung_up_while_draining") and e.result is not None]
+    peer_gone = engine.OR(*[engine.AND(g.guard, g.result.term) for g in gone]) if gone else "false"
+    push = [e for e in ev if e.kind == "call" and re.search(r"Vec::<u32>::push$", e.callee)]
+    if not gen:
+        return dict(res, verdict="inconclusive", why="gen_window_update call not found")
+    problems = []
+    removes = []
+    for c in mut:
+        name = re.sub(r"::<.*?>(?=::|$)", "", c.callee).split("::")[-1]
+        if name == "remove":
+            removes.append(c)
+        elif q([c.guard, engine.NOT(peer_gone)])[0] != "unsat":
+            # (dropping everything is fine once the peer has hung up: nobody is left to credit)
+            problems.append("pending WINDOW_UPDATE credits are taken out of the map through HashMap::%s: entries not yet serialised are lost when the loop exits early" % name)
+    if not removes and not problems:
+        problems.append("written credits are never removed from the map (they would be sent again)")
+    # ids are recorded as written only after a successful serialisation or for a zero increment
+    oks = []
+    for g in gen:
+        reads = [e for e in ev if e.kind == "discr_read" and e.place == g.dest]
+        for r in reads:
+            oks.append(engine.AND(r.guard, "(= %s %s)" % (r.term, engine.bv(0, 64))))
+    zero = [e for e in ev if e.kind == "call" and False]
+    for p in push:
+        later_ok = engine.OR(*oks) if oks else "false"
+        v = q([p.guard, engine.NOT(later_ok)])[0]
+        if v != "unsat":
+            # the only other legitimate source is the `increment == 0` skip, which never calls gen
+            if q([p.guard, engine.OR(*[g.guard for g in gen if g.node[1] == p.node[1]])])[0] != "unsat" and v != "unsat":
+                problems.append("a stream id is recorded as written although its WINDOW_UPDATE frame was not serialised")
+    wit = [q([engine.OR(*[g.guard for g in gen])])[0]]
+    res["witness"] = "serialisation reachable: %s; %d map mutations (%d removes), %d written-id pushes" % (wit, len(mut), len(removes), len(push))
+    res["witness_ok"] = all(x == "sat" for x in wit)
+    res["queries"], res["solver_s"] = q.n, round(q.secs, 2)
+    if problems:
+        return dict(res, verdict="counterexample", text="; ".join(sorted(set(problems))), model={"problems": problems}, replay={"reproduced": False, "why": "no native replay"})
+    return dict(res, verdict="holds")
+
+
 def run(ob, tier):
+    if ob.get("which") == "debit":
+        return debit(ob, tier)
+    if ob.get("which") == "credits":
+        return credits(ob, tier)
     fn = mirrun.get_fn("lib", "::handle_window_update_frame")
     ex = engine.Executor(fn, loop_bound=lambda f, h: 2, max_nodes=200000)
     ev = ex.run()
